@@ -55,14 +55,16 @@ class C16Machine(Machine):
 
     @classmethod
     def draw_config(cls, rng, tier):
+        deep = tier == "thorough" and rng.random() < 0.3
         cfg = {
-            "max_ops": 16,
+            "max_ops": 16 if not deep else 40,
+            "deep": deep,
             "delimiter": rng.choice([":", ":", ":", "/", "::", "_", "|"]),
             "curie_pool": tokens.pick_pool(rng, tokens.CURIE_PREFIXES, [], 4, 8),
             "uri_pool": tokens.pick_pool(rng, tokens.URI_PREFIXES, [], 4, 9),
             "n_records": rng.randint(2, 5),
             "width": rng.randint(1, 4),
-            "n_rows": rng.choice([0, 1, 2, 3, 4, 5, 6, 8, 10]),
+            "n_rows": rng.choice([0, 1, 2, 3, 4, 5, 6, 8, 10]) if not deep else rng.choice([12, 16, 24, 32]),
             "header": rng.random() < 0.5,
             "sep": rng.choice(SEPS),
             "func": rng.choice(["file_compress", "file_expand"]),
